@@ -174,11 +174,16 @@ package agent
 //@   requires nonnil: a != nil
 //@   modifies *
 //@   ensures nonnil: r != nil
+// C15: a relay is found by the 32-bit value of its id (callbacks deliver ids zero-extended):
+// the first entry with that id, or nil exactly when there is none.
 //@ func (a *Agent) SocksClientGet(SocketID int) (r *SocksClient)
 //@   requires entries: forall(i, 0, len(a.SocksCli), a.SocksCli[i] != nil)
 //@   requires unlocked: !held(a.SocksCliMtx)
 //@   requires nonnil: a != nil
-//@   modifies *
+//@   ensures found: r != nil ==> exists(i, 0, len(a.SocksCli), a.SocksCli[i] == r && r.SocketID == int32(SocketID))
+//@   ensures none:  r == nil ==> forall(i, 0, len(a.SocksCli), a.SocksCli[i].SocketID != int32(SocketID))
+//@   loop "for i := range a.SocksCli"
+//@     invariant scan: client == nil && forall(k, 0, idx__, a.SocksCli[k].SocketID != int32(SocketID))
 //@ func (a *Agent) SocksClientRead(client *SocksClient) (r []byte, err error)
 //@   requires nonnil: a != nil && client != nil && client.Conn != nil
 //@   modifies *
@@ -270,9 +275,10 @@ package agent
 //@   requires names: wfSessions()
 //@   ensures total: err == nil
 //@   guard-call target: "BuildPayloadMessage#1" sameslice(arg(1), a.Encryption.AESKey) && sameslice(arg(2), a.Encryption.AESIv)
-//@   guard-call hop: "BuildPayloadMessage#2" sameslice(arg(1), pivots.Parent.Encryption.AESKey) && sameslice(arg(2), pivots.Parent.Encryption.AESIv)
+//   (atloophead(pivots): the hop this iteration wraps for - key, iv and both ids must all be that hop's)
+//@   guard-call hop: "BuildPayloadMessage#2" sameslice(arg(1), atloophead(pivots).Parent.Encryption.AESKey) && sameslice(arg(2), atloophead(pivots).Parent.Encryption.AESIv)
 //@   guard-call targetid: "AddInt32#1" arg(1) == int32(uf_hexval(a.NameID))
-//@   guard-call hopid: "AddInt32#2" arg(1) == int32(uf_hexval(pivots.Parent.NameID))
+//@   guard-call hopid: "AddInt32#2" arg(1) == int32(uf_hexval(atloophead(pivots).Parent.NameID))
 //@   guard-call body: "AddBytes" sameslice(arg(1), Payload)
 //@   loop "for"
 //@     invariant chain: pivots != nil && pivots.Parent != nil && err == nil
